@@ -56,3 +56,12 @@ N("c09-n-else-form", "C09", A, "Lock.release",
   "            if fut.cancelled():\n                continue\n\n            self._owner_task = task\n            fut.set_result(None)\n            return",
   "            if not fut.cancelled():\n                self._owner_task = task\n                fut.set_result(None)\n                return")
 
+
+# ---- adapters / factory / async with (R09-g)
+M("c09-adapter-acquire-nowait-blocks", "C09", SYNC, "LockAdapter.acquire", "        await self._lock.acquire()", "        self._lock.acquire_nowait()", ["R09-g"])
+M("c09-adapter-drops-fast-acquire", "C09", SYNC, "LockAdapter._lock", "get_async_backend().create_lock(\n                fast_acquire=self._fast_acquire\n            )", "get_async_backend().create_lock(\n                fast_acquire=False\n            )", ["R09-g"])
+M("c09-adapter-new-lock-each-time", "C09", SYNC, "LockAdapter._lock", "        if self._internal_lock is None:\n            self._internal_lock", "        if True:\n            self._internal_lock", ["R09-g"])
+M("c09-adapter-release-noop-before-use", "C09", SYNC, "LockAdapter.release", "        self._lock.release()", "        if self._internal_lock is None:\n            return\n        if self._internal_lock.locked():\n            return\n        self._lock.release()", ["R09-g"])
+M("c09-adapter-locked-constant", "C09", SYNC, "LockAdapter.locked", "        return self._lock.locked()", "        self._lock.locked()\n        return False", ["R09-g"])
+M("c09-aexit-conditional-release", "C09", SYNC, "Lock.__aexit__", "        self.release()", "        if exc_type is None:\n            self.release()", ["R09-g"])
+M("c09-factory-drops-fast-acquire", "C09", SYNC, "Lock.__new__", "return LockAdapter(fast_acquire=fast_acquire)", "return LockAdapter()", ["R09-g"])
